@@ -21,6 +21,7 @@ Inductive kins :=
 | KCall (t : Z)             (* call through register t *)
 | KTest8 (r : Z)            (* test r8, r8 *)
 | KCmp64 (r c : Z)          (* cmp r64, imm (c as an unsigned 64-bit value) *)
+| KCmpCell (k : Z)          (* cmp <cell k at the cell width>, 0 *)
 | KJe | KJne                (* the jump to the termination path *)
 | KStore (k r : Z).         (* store the low w bits of r into tape cell k *)
 
@@ -54,6 +55,7 @@ Definition kstep (st : kst) (i : kins) : kst * bool :=
           kcalls := kcalls st ++ [(kr st 7, kr st 6)]; kzf := kzf st |}, false)
   | KTest8 r => ({| kr := kr st; kc := kc st; kk := kk st; kcalls := kcalls st; kzf := (kr st r mod 256 =? 0) |}, false)
   | KCmp64 r c => ({| kr := kr st; kc := kc st; kk := kk st; kcalls := kcalls st; kzf := (kr st r =? c) |}, false)
+  | KCmpCell k => ({| kr := kr st; kc := kc st; kk := kk st; kcalls := kcalls st; kzf := (kc st k =? 0) |}, false)
   | KJe => (st, kzf st)
   | KJne => (st, negb (kzf st))
   | KStore k r => ({| kr := kr st; kc := upd (kc st) k (kr st r mod 2 ^ w); kk := kk st; kcalls := kcalls st; kzf := kzf st |}, false)
@@ -123,6 +125,7 @@ Definition ystep (y : ksym) (i : kins) : option ksym :=
                         ycalled := ycalled y; yexit := yexit y |}
   | KCmp64 r c => Some {| yr := yr y; ystore := ystore y; yk := yk y; ycalls := ycalls y; ytest := TCmp64 (yget y r) c;
                           ycalled := ycalled y; yexit := yexit y |}
+  | KCmpCell _ => None     (* not part of a call template *)
   | KJe | KJne =>
       match yexit y, yk y with
       | None, [] => if negb (ycalled y) then None else Some {| yr := yr y; ystore := ystore y; yk := yk y; ycalls := ycalls y; ytest := ytest y;
@@ -178,4 +181,14 @@ Definition call_ok (i : binstr) (live : Z) (code : list kins) : bool :=
           && match ystore y with [] => true | _ => false end
       | _ => false
       end
+  end.
+
+(** ** conditional branches: [BrZ]/[BrNZ] compare the condition cell with zero at the cell width and
+    jump (the check that the jump goes to the code of instruction [pc + off] is made by the caller
+    on the relocated machine code) *)
+Definition br_ok (i : binstr) (code : list kins) : bool :=
+  match i, code with
+  | BrZ c _, [KCmpCell k; KJe] => k =? c
+  | BrNZ c _, [KCmpCell k; KJne] => k =? c
+  | _, _ => false
   end.
